@@ -22,13 +22,12 @@ ASSUMPTIONS = [
 
 
 def plan(tier, seed):
-    specs = []
-    parts = 2 if tier == 'quick' else 4
+    # shards partition the structure NAMES; inside a shard every name is processed for all the versions defining it, one
+    # after the other in the same process (ascending or descending): what one version taught the library must not leak
+    # into another
+    parts = 24 if tier == 'quick' else 48
     rounds = 1 if tier == 'quick' else 4
-    for v in tables.versions():
-        for p in range(parts):
-            specs.append({'version': v, 'part': p, 'parts': parts, 'rounds': rounds})
-    return specs
+    return [{'part': p, 'parts': parts, 'rounds': rounds} for p in range(parts)]
 
 
 def token_line(v, seg, toks, mode):
@@ -138,12 +137,18 @@ def check_instance(parser, v, name, node, lines, text, mode, rec):
 
 def run_shard(spec, rec):
     from hl7apy import parser
-    v = spec['version']
-    rng = gen.rng_for(spec['seed'], 'c08', v, spec['part'])
-    toks = gen.Tokens('%sp%d' % (v.replace('.', ''), spec['part']))
-    msgs = tables.messages(v)
-    names = [n for i, n in enumerate(sorted(msgs)) if i % spec['parts'] == spec['part']]
-    for name in names:
+    rng = gen.rng_for(spec['seed'], 'c08', spec['part'])
+    toks = gen.Tokens('p%d' % spec['part'])
+    vs = tables.versions()
+    allnames = sorted({n for v in vs for n in tables.messages(v)})
+    mine = [n for i, n in enumerate(allnames) if i % spec['parts'] == spec['part']]
+    todo = []
+    for j, name in enumerate(mine):
+        having = [v for v in vs if name in tables.messages(v)]
+        todo.extend((name, v) for v in (having if j % 2 else having[::-1]))
+    for name, v in todo:
+        msgs = tables.messages(v)
+        rec.seen('versions', v)
         node = msgs[name]
         why = structref.unusable_reason(v, node)
         if why is None and structref.msh9_for(v, name) is None:
@@ -178,7 +183,6 @@ def run_shard(spec, rec):
                 rec.seen('modes', mode)
         if rec.counters.get('instances', 0) <= 4:
             rec.sample({'version': v, 'structure': name, 'text': text[:300]})
-    rec.seen('versions', v)
 
 
 def replay(case, rec):
